@@ -24,6 +24,7 @@
 #include <unordered_set>
 #include <algorithm>
 #include <poll.h>
+#include <dirent.h>
 #include <fcntl.h>
 #include <sched.h>
 #include <signal.h>
@@ -154,7 +155,7 @@ static ChildResult run_case_in_child(Case const &c) {
 
     size_t n = c.progs.size();
     for (size_t t = 0; t < n; t++) recs[t + 1].resize(c.progs[t].size());
-    std::atomic<int> arrived(0); std::atomic<bool> go(false);
+    std::atomic<int> arrived(0), finished(0), nlive((int)n); std::atomic<bool> go(false);
     std::vector<std::thread> th;
     bool spawn_failed = false;
     for (size_t t = 0; t < n && !spawn_failed; t++) {
@@ -163,11 +164,19 @@ static ChildResult run_case_in_child(Case const &c) {
             arrived.fetch_add(1);
             for (int k = 0; !go.load(std::memory_order_acquire); k++) { if (k > 2000) sched_yield(); else spin(1); }
             spin(t < c.delay.size() ? c.delay[t] : 0);
+            // like a request context, every thread holds its own reference for the time it uses the cache (add_ref / del_ref run
+            // concurrently with the other threads' operations; the main thread's reference keeps the object alive)
+            cache_ptr mine(&C);
             std::vector<Op> const &ops = c.progs[t];
-            for (size_t i = 0; i < ops.size(); i++) run_op(C, ops[i], sid_of[t + 1][i] >= 0 ? &plans[sid_of[t + 1][i]] : nullptr, recs[t + 1][i]);
+            for (size_t i = 0; i < ops.size(); i++) run_op(*mine, ops[i], sid_of[t + 1][i] >= 0 ? &plans[sid_of[t + 1][i]] : nullptr, recs[t + 1][i]);
+            // stay alive until every thread is through: ThreadSanitizer can only report a race with an access whose thread's trace
+            // still exists, and a one-operation thread would otherwise be gone before its partner arrives.  Relaxed: adds no ordering.
+            finished.fetch_add(1, std::memory_order_relaxed);
+            for (int k = 0; finished.load(std::memory_order_relaxed) < nlive.load(std::memory_order_relaxed); k++) { if (k > 500) sched_yield(); else spin(1); }
         });
         } catch (std::system_error const &) { spawn_failed = true; }      // out of threads on a loaded machine: not the cache's fault
     }
+    nlive.store((int)th.size(), std::memory_order_relaxed);
     for (int k = 0; arrived.load() < (int)th.size(); k++) { if (k > 200) sched_yield(); }
     go.store(true, std::memory_order_release);
     for (auto &x : th) x.join();
@@ -349,6 +358,10 @@ static Outcome run_once(Case const &c) {
         return bad("crash:exit-" + std::to_string(code), "child exited with status " + std::to_string(code) + " without a result\n" + err);
     }
     int sg = WIFSIGNALED(st) ? WTERMSIG(st) : 0;
+    if (sg == SIGKILL) {      // nothing inside the child raises SIGKILL: killed from outside (OOM killer, operator)
+        VR.inconclusive++; VR.cls("harness:child-killed-from-outside(inconclusive)");
+        return ok();
+    }
     if (summary_of(err, "AddressSanitizer", type, where)) return bad("asan:" + slug(type), "AddressSanitizer: " + type + where + "\n" + err);
     return bad("crash:signal-" + std::to_string(sg), "child was killed by signal " + std::to_string(sg) + " while running the case (assertion / corrupted structure)\n" + err);
 }
@@ -362,7 +375,7 @@ static Outcome body(Case const &c0) {
         return ok();
     }
     VR.eval();
-    long reps = g_replay ? vr::envl("C09_REPLAY_REPS", 150) : (g_failed_once ? vr::envl("C09_SHRINK_REPS", 6) : 1);
+    long reps = g_replay ? vr::envl("C09_REPLAY_REPS", 300) : (g_failed_once ? vr::envl("C09_SHRINK_REPS", 6) : 1);
     for (long r = 0; r < reps; r++) {
         Outcome o = run_once(c);
         if (!o.ok()) {
@@ -419,10 +432,35 @@ static rc::Gen<Case> gen_case(int max_total) {
     });
 }
 
+// Regression cases (replays/C09/reg-*.case): the minimal shapes in which the sensitivity mutations were caught, executed several times in
+// every run so that these interleaving-prone shapes are always part of the sample.
+static int run_regressions(std::string const &dir, long reps) {
+    std::vector<std::string> files;
+    if (DIR *d = opendir(dir.c_str())) {
+        while (struct dirent *e = readdir(d)) { std::string n = e->d_name; if (n.size() > 9 && n.compare(0, 4, "reg-") == 0 && n.compare(n.size() - 5, 5, ".case") == 0) files.push_back(n); }
+        closedir(d);
+    }
+    std::sort(files.begin(), files.end());
+    bool all = true;
+    for (auto &f : files) {
+        Case c;
+        try { vr::CaseReader r(vr::read_file(dir + "/" + f)); r.w(); c = Case::decode(r); }
+        catch (std::exception const &e) { fprintf(stderr, "cannot read %s: %s\n", f.c_str(), e.what()); return 3; }
+        VR.cls("regression-file:" + f, 0);
+        for (long i = 0; i < reps && all; i++) all = vr::run_direct("conc", c, body) && all;
+        VR.cls("regression-file:" + f, 1);
+    }
+    VR.finish();
+    return all ? 0 : 1;
+}
+
 int main(int argc, char **argv) {
     g_replay = vr::replay_arg(argc, argv) != nullptr;
+    std::string reg = vr::env("C09_REGRESS_DIR");
+    if (!g_replay && !reg.empty()) { vr::install_crash_hooks(); return run_regressions(reg, vr::envl("C09_REGRESS_REPS", 25)); }
     int max_total = (int)vr::envl("C09_MAX_OPS", vr::thorough() ? 40 : 24);
     std::vector<std::unique_ptr<vr::PropBase>> props;
-    props.push_back(vr::prop<Case>(C09_TSAN ? "conc_tsan" : "conc_asan", gen_case(max_total), body));
+    // the same property name in both builds: the unit name inside the replay file name selects the binary
+    props.push_back(vr::prop<Case>("conc", gen_case(max_total), body));
     return vr::rc_main(argc, argv, props);
 }
